@@ -170,7 +170,11 @@ V1_Leafs(t) == CASE t = "Q" -> { Sel("", "a"), Sel("k", "b"),
                                  SelA("", "f", <<[n |-> "x", v |-> IntV("1")]>>),
                                  SelA("g", "f", <<[n |-> "z", v |-> ListV(<<IntV("3"), VarRef("i1")>>)],
                                                   [n |-> "en", v |-> EnumV("RED")]>>),
-                                 SelA("", "f", <<[n |-> "in", v |-> ObjV(<<[n |-> "r", v |-> VarRef("i3")]>>)]>>) }
+                                 SelA("", "f", <<[n |-> "in", v |-> ObjV(<<[n |-> "r", v |-> VarRef("i3")]>>)]>>),
+                                 \* list literals in a NON-NULL list position and nested lists
+                                 SelA("", "gnli", <<[n |-> "nli", v |-> ListV(<<IntV("3"), VarRef("i1")>>)]>>),
+                                 SelA("h", "g", <<[n |-> "lli", v |-> ListV(<<ListV(<<IntV("1"), VarRef("i1")>>)>>)],
+                                                  [n |-> "lni", v |-> ListV(<<VarRef("i1")>>)]>>) }
                  [] t = "O" -> { Sel("", "x"), Sel("k", "w") }
                  [] OTHER -> {}
 V1_Comps(t) == CASE t = "Q" -> { Sel("", "o"), Sel("m", "l") }
